@@ -22,32 +22,35 @@ theorem QF.toCrashQ {j : FJ} {op : Op} {R : List Entry → Prop} {d : Disk}
     (h : QF j.disk R d) (hr : ∀ r, R r → CrashAct j.entries op r) : CrashQ j op d :=
   ⟨Or.inl h.1, let ⟨es, h1, h2⟩ := h.2.2; ⟨es, h1, hr _ h2⟩⟩
 
-theorem timer_ok {j : FJ} (hi : Inv j) :
-    Inv j.timer.1 ∧ j.timer.1.entries = j.entries ∧ j.timer.1.disk = applyPrims j.disk j.timer.2 ∧
-    j.timer.1.mci = j.mci ∧ CrashAll (CrashQ j .timer) j.disk j.timer.2 := by
+theorem storeMetaNow_ok {j : FJ} (hi : Inv j) (op : Op) (hop : CrashAct j.entries op j.entries) :
+    Inv j.storeMetaNow.1 ∧ j.storeMetaNow.1.entries = j.entries ∧
+    j.storeMetaNow.1.disk = applyPrims j.disk j.storeMetaNow.2 ∧
+    j.storeMetaNow.1.mci = j.mci ∧ CrashAll (CrashQ j op) j.disk j.storeMetaNow.2 := by
   have hq0 : ∀ (m : Option Nat) (t : Tmp), (m = j.disk.metaFile ∨ m = j.mci) →
-      CrashQ j .timer { j.disk with metaFile := m, tmp := t } :=
-    fun m t hm => ⟨hm, j.entries, hi.1, rfl⟩
-  by_cases hs : j.metaSaved
-  · have ht : j.timer = (j, []) := by simp [FJ.timer, hs]
-    rw [ht]
-    exact ⟨hi, rfl, rfl, rfl, CrashAll.nil ⟨Or.inl rfl, j.entries, hi.1, rfl⟩⟩
-  · have ht : j.timer = ({ j with
-          disk := applyPrims j.disk [Prim.tmpCreate, Prim.tmpWrite j.mci, Prim.tmpMove], metaSaved := true },
-        [Prim.tmpCreate, Prim.tmpWrite j.mci, Prim.tmpMove]) := by simp [FJ.timer, hs]
-    rw [ht]
-    refine ⟨?_, rfl, rfl, rfl, ?_⟩
-    · exact ⟨by simpa [applyPrim] using hi.1, hi.2⟩
+      CrashQ j op { j.disk with metaFile := m, tmp := t } :=
+    fun m t hm => ⟨hm, j.entries, hi.1, hop⟩
+  refine ⟨?_, rfl, rfl, rfl, ?_⟩
+  · exact ⟨by simpa [FJ.storeMetaNow, applyPrim] using hi.1, hi.2⟩
+  · simp only [FJ.storeMetaNow]
+    apply CrashAll.cons
+    · intro t; exact hq0 _ _ (Or.inl rfl)
     · apply CrashAll.cons
       · intro t; exact hq0 _ _ (Or.inl rfl)
       · apply CrashAll.cons
         · intro t; exact hq0 _ _ (Or.inl rfl)
-        · apply CrashAll.cons
-          · intro t; exact hq0 _ _ (Or.inl rfl)
-          · apply CrashAll.nil; exact hq0 _ _ (Or.inr rfl)
+        · apply CrashAll.nil; exact hq0 _ _ (Or.inr rfl)
 
-/-- One step: succeeds within the limits, keeps the invariant, refines the list operation, its
-primitives replay to the new disk, and every crash point is characterised. -/
+theorem timer_ok {j : FJ} (hi : Inv j) :
+    Inv j.timer.1 ∧ j.timer.1.entries = j.entries ∧ j.timer.1.disk = applyPrims j.disk j.timer.2 ∧
+    j.timer.1.mci = j.mci ∧ CrashAll (CrashQ j .timer) j.disk j.timer.2 := by
+  by_cases hs : j.metaSaved
+  · have ht : j.timer = (j, []) := by simp [FJ.timer, hs]
+    rw [ht]
+    exact ⟨hi, rfl, rfl, rfl, CrashAll.nil ⟨Or.inl rfl, j.entries, hi.1, rfl⟩⟩
+  · have ht : j.timer = j.storeMetaNow := by simp [FJ.timer, hs]
+    rw [ht]
+    exact storeMetaNow_ok hi .timer rfl
+
 theorem clear_ver {j j' : FJ} {ps : List Prim} (h : j.clear = .ok (j', ps)) : j'.ver = j.ver := by
   unfold FJ.clear at h
   split at h
@@ -96,6 +99,9 @@ theorem step_ok {j : FJ} (hi : Inv j) (hver : j.ver.length ≤ 8) (op : Op) (hok
   | reopen =>
     refine ⟨_, [], openDisk_of_DInv j.ver hi.1, ⟨hi.1, rfl⟩, rfl, rfl,
       CrashAll.nil ⟨Or.inl rfl, j.entries, hi.1, rfl⟩, Or.inr (Or.inl rfl), rfl⟩
+  | setTermVote =>
+    obtain ⟨a1, a2, a3, a4, a5⟩ := storeMetaNow_ok hi .setTermVote rfl
+    exact ⟨_, _, rfl, a1, a2, a3, a5, Or.inl a4, rfl⟩
 
 /-- Outside the limits `add` fails with `struct.error` (the error branch). -/
 theorem add_error {j : FJ} (hi : Inv j) (e : Entry) (h : ¬ OkStep j.entries (.add e)) :
@@ -264,7 +270,20 @@ theorem set_timer_persists {S l j} (hr : Reach S l j) (v : Nat) :
       .ok ({ j with mci := some v, metaSaved := true,
                     disk := { j.disk with metaFile := some v, tmp := .absent } },
         [Prim.tmpCreate, Prim.tmpWrite (some v), Prim.tmpMove]) := by
-    simp [FJ.step, FJ.timer, applyPrims, applyPrim]
+    simp [FJ.step, FJ.timer, FJ.storeMetaNow, applyPrims, applyPrim]
+  have hd2 : DInv ({ j.disk with metaFile := some v, tmp := .absent } : Disk).file j.entries := hd
+  exact ⟨_, _, _, _, _, rfl, h2, openDisk_of_DInv j.ver hd2, rfl, hr.ents⟩
+
+/-- A commit index that was set and then flushed by `setTermAndVote` is what a reopen reports. -/
+theorem set_termvote_persists {S l j} (hr : Reach S l j) (v : Nat) :
+    ∃ j1 p1 j2 p2 jc, j.step (.setCommit v) = .ok (j1, p1) ∧ j1.step .setTermVote = .ok (j2, p2) ∧
+      openDisk j.ver j2.disk = .ok (jc, []) ∧ jc.commitIndex = v ∧ jc.entries = l := by
+  have hd := hr.inv.1
+  have h2 : ({ j with mci := some v, metaSaved := false } : FJ).step .setTermVote =
+      .ok ({ j with mci := some v, metaSaved := true,
+                    disk := { j.disk with metaFile := some v, tmp := .absent } },
+        [Prim.tmpCreate, Prim.tmpWrite (some v), Prim.tmpMove]) := by
+    simp [FJ.step, FJ.storeMetaNow, applyPrims, applyPrim]
   have hd2 : DInv ({ j.disk with metaFile := some v, tmp := .absent } : Disk).file j.entries := hd
   exact ⟨_, _, _, _, _, rfl, h2, openDisk_of_DInv j.ver hd2, rfl, hr.ents⟩
 
@@ -334,6 +353,7 @@ theorem totalBytes_ok (ops : List Op) : ∀ l : List Entry, encLen l + totalByte
       | setCommit v => simp [listStep, totalBytes]
       | timer => simp [listStep, totalBytes]
       | reopen => simp [listStep, totalBytes]
+      | setTermVote => simp [listStep, totalBytes]
     refine ⟨?_, ih _ (by omega) hv.2⟩
     cases op with
     | add e =>
